@@ -268,6 +268,13 @@
 #include "urcu-die.h"
 #include "urcu-utils.h"
 #include "compat-smp.h"
+#ifdef URCU_VERIF
+#include <urcu/verif.h>
+#else
+#ifndef urcu_verif_point
+#define urcu_verif_point(id, ctx) do { } while (0)
+#endif
+#endif
 
 /*
  * Split-counters lazily update the global counter each 1024
@@ -275,7 +282,9 @@
  * We use the bucket length as indicator for need to expand for small
  * tables and machines lacking per-cpu data support.
  */
+#ifndef COUNT_COMMIT_ORDER
 #define COUNT_COMMIT_ORDER		10
+#endif
 #define DEFAULT_SPLIT_COUNT_MASK	0xFUL
 #define CHAIN_LEN_TARGET		1
 #define CHAIN_LEN_RESIZE_THRESHOLD	3
@@ -289,7 +298,9 @@
 /*
  * Minimum number of bucket nodes to touch per thread to parallelize grow/shrink.
  */
+#ifndef MIN_PARTITION_PER_THREAD_ORDER
 #define MIN_PARTITION_PER_THREAD_ORDER	12
+#endif
 #define MIN_PARTITION_PER_THREAD	(1UL << MIN_PARTITION_PER_THREAD_ORDER)
 
 /*
@@ -1000,6 +1011,7 @@ void _cds_lfht_gc_bucket(struct cds_lfht_node *bucket, struct cds_lfht_node *nod
 			new_next = flag_bucket(clear_flag(next));
 		else
 			new_next = clear_flag(next);
+		urcu_verif_point(URCU_VP_HT_GC_BEFORE_UNLINK, iter_prev);
 		(void) uatomic_cmpxchg(&iter_prev->next, iter, new_next);
 	}
 }
@@ -1055,10 +1067,12 @@ int _cds_lfht_replace(struct cds_lfht *ht, unsigned long size,
 		 * REMOVED and REMOVAL_OWNER flags atomically so we own
 		 * the node after successful cmpxchg.
 		 */
+		urcu_verif_point(URCU_VP_HT_REPLACE_BEFORE_CMPXCHG, old_node);
 		ret_next = uatomic_cmpxchg(&old_node->next,
 			old_next, flag_removed_or_removal_owner(new_node));
 		if (ret_next == old_next)
 			break;		/* We performed the replacement. */
+		urcu_verif_point(URCU_VP_HT_REPLACE_RETRY, old_node);
 		old_next = ret_next;
 	}
 
@@ -1173,8 +1187,10 @@ void _cds_lfht_add(struct cds_lfht *ht,
 			new_node = flag_bucket(node);
 		else
 			new_node = node;
+		urcu_verif_point(URCU_VP_HT_ADD_BEFORE_CMPXCHG, iter_prev);
 		if (uatomic_cmpxchg(&iter_prev->next, iter,
 				    new_node) != iter) {
+			urcu_verif_point(URCU_VP_HT_ADD_RETRY, iter_prev);
 			continue;	/* retry */
 		} else {
 			return_node = node;
@@ -1188,6 +1204,7 @@ void _cds_lfht_add(struct cds_lfht *ht,
 			new_next = flag_bucket(clear_flag(next));
 		else
 			new_next = clear_flag(next);
+		urcu_verif_point(URCU_VP_HT_ADD_GC_HELP, iter_prev);
 		(void) uatomic_cmpxchg(&iter_prev->next, iter, new_next);
 		/* retry */
 	}
@@ -1237,6 +1254,7 @@ int _cds_lfht_del(struct cds_lfht *ht, unsigned long size,
 	 */
 	node_next = (uintptr_t*)&node->next;
 	uatomic_or_mo(node_next, REMOVED_FLAG, CMM_RELEASE);
+	urcu_verif_point(URCU_VP_HT_DEL_FLAGGED, node);
 
 	/* We performed the (logical) deletion. */
 
@@ -1261,6 +1279,7 @@ int _cds_lfht_del(struct cds_lfht *ht, unsigned long size,
 	 * set the "REMOVAL_OWNER_FLAG" (or change nothing if the flag
 	 * was already set).
 	 */
+	urcu_verif_point(URCU_VP_HT_DEL_BEFORE_OWNER, node);
 	if (!is_removal_owner(uatomic_xchg(&node->next,
 			flag_removal_owner(uatomic_load(&node->next)))))
 		return 0;
@@ -1313,6 +1332,7 @@ void partition_resize_helper(struct cds_lfht *ht, unsigned long i,
 		goto fallback;
 	}
 
+	urcu_verif_point(URCU_VP_HT_PARTITION_THREADS, ht);
 	ret = sigfillset(&newmask);
 	urcu_posix_assert(!ret);
 	ret = pthread_sigmask(SIG_BLOCK, &newmask, &oldmask);
@@ -1431,6 +1451,7 @@ void init_table(struct cds_lfht *ht,
 		 *
 		 * Populate data before RCU size.
 		 */
+		urcu_verif_point(URCU_VP_HT_GROW_BEFORE_PUBLISH, ht);
 		uatomic_store(&ht->size, 1UL << i, CMM_RELEASE);
 
 		dbg_printf("init new size: %lu\n", 1UL << i);
@@ -1532,6 +1553,7 @@ void fini_table(struct cds_lfht *ht,
 		 * releasing the old bucket nodes. Otherwise their lookup will
 		 * return a logically removed node as insert position.
 		 */
+		urcu_verif_point(URCU_VP_HT_SHRINK_BEFORE_GP, ht);
 		ht->flavor->update_synchronize_rcu();
 		if (free_by_rcu_order)
 			cds_lfht_free_bucket_table(ht, free_by_rcu_order);
@@ -1542,6 +1564,7 @@ void fini_table(struct cds_lfht *ht,
 		 * Concurrent add/remove operation are helping us doing
 		 * the gc.
 		 */
+		urcu_verif_point(URCU_VP_HT_SHRINK_BEFORE_REMOVE, ht);
 		remove_table(ht, i, len);
 
 		free_by_rcu_order = i;
@@ -1553,6 +1576,7 @@ void fini_table(struct cds_lfht *ht,
 
 	if (free_by_rcu_order) {
 		ht->flavor->update_synchronize_rcu();
+		urcu_verif_point(URCU_VP_HT_SHRINK_BEFORE_FREE, ht);
 		cds_lfht_free_bucket_table(ht, free_by_rcu_order);
 	}
 }
@@ -2148,6 +2172,7 @@ void _do_cds_lfht_resize(struct cds_lfht *ht)
 		if (uatomic_load(&ht->in_progress_destroy))
 			break;
 
+		urcu_verif_point(URCU_VP_HT_RESIZE_LOOP, ht);
 		uatomic_store(&ht->resize_initiated, 1);
 
 		old_size = ht->size;
@@ -2225,6 +2250,7 @@ void __cds_lfht_resize_lazy_launch(struct cds_lfht *ht)
 			dbg_printf("error allocating resize work, bailing out\n");
 			return;
 		}
+		urcu_verif_point(URCU_VP_HT_LAZY_RESIZE, ht);
 		work->ht = ht;
 		urcu_workqueue_queue_work(cds_lfht_workqueue,
 			&work->work, do_resize_cb);
